@@ -43,7 +43,7 @@ structure Cfg where
   deriving Repr, DecidableEq
 
 /-- the slack reset_interpreter leaves below the end of the value stack (`size - 5`, a literal in src/stack.c) -/
-def stackSlack : Int := 5
+def stackSlack : Int := stackSlackSrc   -- regenerated from src/stack.c (`size - 5`)
 
 /-- cause of an error (ghost information: the C code only has the message text and `error_state`) -/
 inductive Kind
@@ -76,6 +76,7 @@ structure St where
   maxDepth : Int := 0        -- ghost: high-water mark of depth
   maxSp : Int := 0           -- ghost: high-water mark of sp
   evs : List Ev := []        -- newest first
+  br : List Nat := []        -- ghost: branches of the machine taken (coverage measurement of the generators only)
   deriving Repr
 
 inductive Out
@@ -91,6 +92,9 @@ inductive Ctx
   | safe      -- safe_apply / safe_call_function_pointer
   deriving Repr, DecidableEq
 
+/-- record a branch of the machine (ghost; see `branchNames` in Drive.lean) -/
+def mark (n : Nat) (s : St) : St := { s with br := n :: s.br }
+
 def setEs (s : St) (bit : Nat) : St := { s with es := s.es ||| bit }
 def hasEs (s : St) (bit : Nat) : Bool := s.es &&& bit != 0
 
@@ -101,13 +105,13 @@ def hasEs (s : St) (bit : Nat) : Bool := s.es &&& bit != 0
 def raise (_cfg : Cfg) (_ctx : Ctx) (k : Kind) (s : St) : Out × St := (.raised k, s)
 
 /-- the evaluation budget as configured: rc.cpp and set_eval_limit clamp it to at least 1 (fix 7c5c9ea) -/
-def clampCost (v : Int) : Int := if v < 1 then 1 else v
+def clampCost (v : Int) : Int := if v < (clampMin : Int) then (clampMin : Int) else v   -- clampMin regenerated from rc.cpp
 
 /-- one instruction fetch of eval_instruction: `if (!--eval_cost)` -/
 def tick (cfg : Cfg) (ctx : Ctx) (s : St) : Out × St :=
   let s := { s with ticks := s.ticks + 1, cost := s.cost - 1 }
   if s.cost == 0 then
-    raise cfg ctx .cost { (setEs s esMaxEvalCost) with cost := cfg.maxCost }
+    raise cfg ctx .cost (mark 1 { (setEs s esMaxEvalCost) with cost := cfg.maxCost })
   else (.ok, s)
 
 /-- n instructions of straight-line / terminating loop code -/
@@ -129,7 +133,7 @@ def spin (cfg : Cfg) (ctx : Ctx) : Nat → St → Out × St
 /-- push_control_stack / setup_fake_frame: `if (csp == &control_stack[MAX_CALL_DEPTH - 1])` -/
 def pushFrame (cfg : Cfg) (ctx : Ctx) (s : St) : Out × St :=
   if s.depth - 1 == cfg.maxDepth - 1 then
-    raise cfg ctx .deep (setEs s esStackFull)
+    raise cfg ctx .deep (mark 2 (setEs s esStackFull))
   else
     let d := s.depth + 1
     (.ok, { s with depth := d, maxDepth := if d > s.maxDepth then d else s.maxDepth })
@@ -137,7 +141,7 @@ def pushFrame (cfg : Cfg) (ctx : Ctx) (s : St) : Out × St :=
 /-- STACK_CHECK (n) followed by n pushes (push_undefineds): `if (sp + n >= end_of_stack)` -/
 def pushChecked (cfg : Cfg) (ctx : Ctx) (n : Nat) (s : St) : Out × St :=
   if (s.sp - 1) + n ≥ cfg.stackSize - stackSlack then
-    raise cfg ctx .stack (setEs s esStackFull)
+    raise cfg ctx .stack (mark 3 (setEs s esStackFull))
   else
     let h := s.sp + n
     (.ok, { s with sp := h, maxSp := if h > s.maxSp then h else s.maxSp })
@@ -186,12 +190,12 @@ def catchLanding (cfg : Cfg) (ctx : Ctx) (d0 p0 : Int) (k : Kind) (s : St) : Out
   let s := pushUnchecked (leave s d0 p0)
   if hasEs s esMaxEvalCost then
     -- pop_context (clears error_state); set_error_state (ES_MAX_EVAL_COST) (fix); error ("Can't catch eval cost ...")
-    raise cfg ctx .cost { s with es := esMaxEvalCost }
+    raise cfg ctx .cost (mark 5 { s with es := esMaxEvalCost })
   else if hasEs s esStackFull then
-    raise cfg ctx .deep { s with es := esStackFull }
+    raise cfg ctx .deep (mark 6 { s with es := esStackFull })
   else
     -- pop_context; the caught value is the value of the catch expression, the statement pops it
-    (.ok, { (leave s d0 p0) with es := 0, evs := .afterCatch k :: s.evs })
+    (.ok, { (leave s d0 p0) with es := 0, evs := .afterCatch k :: s.evs, br := 7 :: s.br })
 
 /-- execute a shape under the innermost error context `ctx`; `fuel` bounds the model's own recursion -/
 def exec (cfg : Cfg) : Nat → Ctx → Sh → St → Out × St
@@ -205,8 +209,8 @@ def exec (cfg : Cfg) : Nat → Ctx → Sh → St → Out × St
     | .throw_ =>
       -- throw_error: longjmp when the innermost context is a catch, else error ("Throw with no catch")
       (match ctx with
-       | .catch_ => (.raised .thrown, s)
-       | _ => raise cfg ctx .plain s)
+       | .catch_ => (.raised .thrown, mark 11 s)
+       | _ => raise cfg ctx .plain (mark 12 s))
     | .seq a b => seqM (exec cfg f ctx a s) fun s => exec cfg f ctx b s
     | .call locals body =>
       -- push_control_stack, setup_new_frame (push_undefineds (locals)), the body, return
@@ -234,29 +238,30 @@ def exec (cfg : Cfg) : Nat → Ctx → Sh → St → Out × St
       -- pop_context clears error_state either way
       -- (the efun that makes the safe apply is itself an instruction of the caller)
       seqM (tick cfg ctx s) fun s =>
-      if s.depth - 1 == cfg.maxDepth - 1 then (.ok, s)
+      if s.depth - 1 == cfg.maxDepth - 1 then (.ok, mark 8 s)
       else
         (match exec cfg f .safe (.call 0 body) s with
-         | (.ok, s1) => (.ok, { s1 with es := 0 })
+         | (.ok, s1) => (.ok, { s1 with es := 0, br := 14 :: s1.br })
          | (.raised k, s1) =>
            -- restore_context; `if (get_error_state (ES_MAX_EVAL_COST)) eval_cost = 1;` (fix d927c4d: the budget ran
            -- out inside the call and was refreshed for the handler - the caller has one tick left); pop_context
            (.ok, { (leave s1 s.depth s.sp) with
-                     cost := if hasEs s1 esMaxEvalCost then 1 else s1.cost,
-                     es := 0, evs := .safeSwallowed k :: s1.evs })
+                     cost := if hasEs s1 esMaxEvalCost then (safeTickLeft : Int) else s1.cost,   -- regenerated from src/apply.c
+                     es := 0, evs := .safeSwallowed k :: s1.evs,
+                     br := (if hasEs s1 esMaxEvalCost then 9 else 10) :: s1.br })
          | (.fuel, s1) => (.fuel, s1))
     | .catch_ body =>
       -- do_catch (src/frame.c).
       -- `if (!save_context (&econ)) error ("*Can't catch too deep recursion error.")`; at full depth the master's
       -- error handler cannot be applied either ("Too deep recursion" inside it), which sets ES_STACK_FULL
       if s.depth - 1 == cfg.maxDepth - 1 then
-        raise cfg ctx .deep (setEs s esStackFull)
+        raise cfg ctx .deep (mark 4 (setEs s esStackFull))
       else
         -- push_control_stack (FRAME_CATCH): cannot fail, save_context made the same test
         (match exec cfg f .catch_ body (pushCatchFrame s) with
          | (.ok, s2) =>
            -- no error: pop_context; the catch frame was popped by F_END_CATCH
-           (.ok, { (leave s2 s.depth s.sp) with es := 0 })
+           (.ok, { (leave s2 s.depth s.sp) with es := 0, br := 13 :: s2.br })
          | (.fuel, s2) => (.fuel, s2)
          | (.raised k, s2) => catchLanding cfg ctx s.depth s.sp k s2)
 
